@@ -18,6 +18,9 @@ CATALOG = {
     "C09": {
         "drivers": [("shape", {"quick": 800, "thorough": 30000}, {})],
     },
+    "C10": {
+        "drivers": [("reduce", {"quick": 500, "thorough": 20000}, {})],
+    },
     "C14": {
         "drivers": [("options", {"quick": 400, "thorough": 20000}, {})],
         "models": [{"module": "MC_Options", "cfg": {"quick": "MC_Options_quick", "thorough": "MC_Options_thorough"},
